@@ -9,6 +9,15 @@
     slice (len < 2^63); without it the "flow changed" test
     [StepIndex == MaxUint] would be ambiguous in the model.
 
+    Nil steps and negated conditions.  A flow may contain holes ([SNil]: a
+    nil entry of [Flow.Steps], or a nil pointer of a step type): calling
+    [Actions] on one panics, so it is a step like any other whose [Actions]
+    panics — logged with a step->actions issue, and the run goes on behind it
+    (C09_step_panic_continues, C09_nil_step_contained, C09_nil_flow_log, at the
+    level of NextStep itself).  Negation is [commonconds.Not], one wrapper per
+    negation ([CNot], [nots n]): C09_cond_not, C09_if_not_swaps_branches,
+    C09_if_nots_parity, C09_flow_func_nots_parity.
+
     The last group of theorems (C09_step_actions_owned, C09_run_keeps_family,
     C09_log_entries_stable) is about Model/InterpHeap.v, where the action
     list of a static step is not a value but a WINDOW into an array of the
@@ -75,6 +84,84 @@ Theorem C09_step_panic_contained : forall sid body c,
     (mkEntry sid [] (ICActions :: snd (actor_part c)) [] (c_actor c) (fst (actor_part c)), c, None).
 Proof. exact step_panic_contained. Qed.
 Print Assumptions C09_step_panic_contained.
+
+(** The same at machine level, i.e. for NextStep itself: the call on a step
+    whose [Actions] panics appends exactly that entry, returns [true] (a step
+    WAS executed, [Finish] goes on), leaves the state alone, and the steps
+    still to be executed are the FOLLOWING steps [more] of the same flow. *)
+Theorem C09_step_panic_continues : forall fam st log sid body more,
+  sized fam -> uint_ok st ->
+  remaining fam st = (sid, body) :: more ->
+  actions_of body (ms_core st) = Panic ->
+  exists st',
+    next_step fam st log =
+      Ok (st', log ++ [mkEntry sid [] (ICActions :: snd (actor_part (ms_core st))) []
+                               (c_actor (ms_core st)) (fst (actor_part (ms_core st)))], true) /\
+    ms_core st' = ms_core st /\ uint_ok st' /\ remaining fam st' = more.
+Proof. exact step_panic_machine. Qed.
+Print Assumptions C09_step_panic_continues.
+
+(** A nil [types.Step] — a hole in [Flow.Steps], at any position: first step
+    of the run, first step of a flow that was switched to, last step — is such
+    a step (calling [Actions] on it panics); no hypothesis about the step is
+    left: it is logged (its entry carries the nil step), and the run goes on
+    with the step after the hole. *)
+Theorem C09_nil_step_contained : forall fam st log sid more,
+  sized fam -> uint_ok st ->
+  remaining fam st = (sid, SNil) :: more ->
+  exists st',
+    next_step fam st log =
+      Ok (st', log ++ [mkEntry sid [] (ICActions :: snd (actor_part (ms_core st))) []
+                               (c_actor (ms_core st)) (fst (actor_part (ms_core st)))], true) /\
+    ms_core st' = ms_core st /\ uint_ok st' /\ remaining fam st' = more.
+Proof. exact nil_step_machine. Qed.
+Print Assumptions C09_nil_step_contained.
+
+(** Even a flow made of holes only is executed to its end: one entry per hole,
+    in order, then the end is reported; the state is untouched.  (For flows
+    that mix holes with other non-switching steps C09_linear_flow_log below
+    gives the same: [step_targets SNil = []].) *)
+Theorem C09_nil_flow_log : forall fam root sids c fuel,
+  sized fam -> lookup fam root = Some (map (fun sid => (sid, SNil)) sids) -> (length sids < fuel)%nat ->
+  exists st,
+    run fuel fam (init_state root c) [] =
+      Ok (st, map (fun sid => mkEntry sid [] (ICActions :: snd (actor_part c)) [] (c_actor c) (fst (actor_part c))) sids,
+          true) /\
+    ms_core st = c.
+Proof. exact nil_flow_log. Qed.
+Print Assumptions C09_nil_flow_log.
+
+(** Conditional steps "with arbitrary conditions": a condition negated with
+    [commonconds.Not] holds exactly when the condition does not (a panicking
+    [Check] stays a panic) ... *)
+Theorem C09_cond_not : forall cd c,
+  eval_cond (CNot cd) c = match eval_cond cd c with Ok b => Ok (negb b) | o => o end.
+Proof. exact eval_cond_not. Qed.
+Print Assumptions C09_cond_not.
+
+(** ... so the conditional step on the negated condition asks for the actions
+    of the OTHER branch ... *)
+Theorem C09_if_not_swaps_branches : forall cd t e c,
+  actions_of (SIf (CNot cd) t e) c = actions_of (SIf cd e t) c.
+Proof. exact if_not_swaps. Qed.
+Print Assumptions C09_if_not_swaps_branches.
+
+(** ... and [n] negations stacked on each other ([nots n cd]) exchange the
+    branches iff [n] is odd: a double negation is the condition itself, it
+    does not collapse into a single one. *)
+Theorem C09_if_nots_parity : forall n cd t e c,
+  actions_of (SIf (nots n cd) t e) c =
+    if Nat.even n then actions_of (SIf cd t e) c else actions_of (SIf cd e t) c.
+Proof. exact if_nots. Qed.
+Print Assumptions C09_if_nots_parity.
+
+(** The same for a flow-choosing function that branches on a negated
+    condition. *)
+Theorem C09_flow_func_nots_parity : forall n cd t e c,
+  eval_ffun (FIf (nots n cd) t e) c =
+    if Nat.even n then eval_ffun (FIf cd t e) c else eval_ffun (FIf cd e t) c.
+Proof. exact ffun_nots. Qed.
+Print Assumptions C09_flow_func_nots_parity.
 
 (** Failing actions: the state after a step is the result of applying ALL
     actions up to and including the first flow-setting one ([executed acts c];
@@ -241,6 +328,33 @@ Example C09_demo_machine :
              Ok (st, fst (exec_flow demo 0 (mkCore None [] (Some true))), true)
              /\ (ms_flow st, ms_step st) = (1, 2).
 Proof. eexists. split; vm_compute; reflexivity. Qed.
+
+(** Holes and stacked negations in one family: flow 0 has a hole in the
+    middle and then a conditional on a DOUBLE negation of "actor is 5" (true
+    here), which switches to flow 1; flow 1 starts with a hole and ends with
+    one.  Every hole is logged with a step->actions issue and the step after
+    it is executed. *)
+Definition demo_holes : family :=
+  [ (0, [ (10, SSetActor (Some 5)); (3, SNil);
+          (11, SIf (nots 2 (CActorIs (Some 5))) (Some (SSetFlow 1)) (Some (SStatic [ATPMMeasure 1 ROk])));
+          (12, SStatic [ATPMMeasure 2 ROk]) ]);
+    (1, [ (3, SNil); (13, SStatic [ATPMMeasure 3 ROk]); (3, SNil) ]) ].
+
+Example C09_demo_holes :
+  let c0 := mkCore None [] (Some true) in
+  sized demo_holes /\ stratified demo_holes = true /\
+  (let '(log, c) := exec_flow demo_holes 0 c0 in
+   map e_sid log = [10; 3; 11; 3; 13; 3] /\
+   map e_issues log = [[]; [ICActions]; []; [ICActions]; []; [ICActions]] /\
+   map e_actions log = [[ASetActor (Some 5)]; []; [ASetFlow 1]; []; [ATPMMeasure 3 ROk]; []] /\
+   c_measured c = [3]) /\
+  (exists st, run (fuel_bound demo_holes) demo_holes (init_state 0 c0) [] =
+              Ok (st, fst (exec_flow demo_holes 0 c0), true) /\ (ms_flow st, ms_step st) = (1, 3)).
+Proof.
+  split; [apply sized_b_sound; reflexivity|].
+  split; [reflexivity|]. split; [vm_compute; repeat split|].
+  eexists. split; vm_compute; reflexivity.
+Qed.
 
 (** * Who owns the memory of an action list (Model/InterpHeap.v) *)
 
